@@ -128,6 +128,29 @@ def run(chk, replay=None):
         lines.append("(entry type %s)" % quote(gen.ty_src(t)))
         for _ in range(6 if quick else 40):
             lines.append("(entry type %s)" % quote(mutate(rng, gen.ty_src(t))))
+    # boundary shapes at every entry point: lists at / over their bound, arrays and tuples one element short / long, empty aggregates
+    for k in (1, 2, 3, 4):
+        b = 1 << k
+        for n in sorted({0, 1, b - 1, b, b + 1}):
+            els = ", ".join(str(i % 7) for i in range(n))
+            lit = "list![%s]" % els
+            lines.append("(entry value (L (U 3) %d) %s)" % (k, quote(lit)))
+            lines.append("(entry program %s)" % quote("fn main() { let l: List<u8, %d> = %s; }" % (b, lit)))
+            lines.append("(entry program %s)" % quote("fn main() { let w: u8 = witness::W; let l: List<u8, %d> = list![%s]; }" % (b, ", ".join(["w"] * n))))
+            lines.append("(entry program %s)" % quote("fn f(e: u8, a: u8) -> u8 { a }\nfn main() { let s: u8 = fold::<f, %d>(%s, 0); }" % (b, lit)))
+            lines.append("(entry witmod %s)" % quote("mod witness { const L: List<u8, %d> = %s; }" % (b, lit)))
+            lines.append("(entry argmod %s)" % quote("mod param { const L: List<u8, %d> = %s; }" % (b, lit)))
+            lines.append("(entry witjson %s)" % quote('{"L":{"value":"%s","type":"List<u8, %d>"}}' % (lit, b)))
+            lines.append("(entry argjson %s)" % quote('{"L":{"value":"%s","type":"List<u8, %d>"}}' % (lit, b)))
+    for size in (0, 1, 2, 3):
+        for n in sorted({0, max(size - 1, 0), size, size + 1}):
+            els = ", ".join(str(i) for i in range(n))
+            for lit, ty, tysx in (("[%s]" % els, "[u8; %d]" % size, "(A (U 3) %d)" % size),
+                                  ("(%s%s)" % (els, "," if n == 1 else ""), "(%s%s)" % (", ".join(["u8"] * size), "," if size == 1 else ""), "(T %s)" % " ".join(["(U 3)"] * size))):
+                lines.append("(entry value %s %s)" % (tysx, quote(lit)))
+                lines.append("(entry program %s)" % quote("fn main() { let x: %s = %s; }" % (ty, lit)))
+                lines.append("(entry witmod %s)" % quote("mod witness { const X: %s = %s; }" % (ty, lit)))
+                lines.append("(entry witjson %s)" % quote('{"X":{"value":"%s","type":"%s"}}' % (lit, ty)))
     # raw random strings
     alphabet = "abfnuxlet{}()[];:,=<>!0123456789_ \n\t\r" + "é"
     for _ in range(300 if quick else 5000):
